@@ -47,7 +47,7 @@ C11(c) == IF Ok(c.res) # Ok(c.resdf) THEN <<Fail("C11", c, "accepted with but no
 \* linear in the number of tokens: loop iterations <= 3n+3, reduce attempts <= 16(n+1)
 CallsOk(r) == ~HasObs(r) \/ \A k \in DOMAIN r.obs : r.obs[k].out \in {"ok","err"} /\ ~r.obs[k].marker
 Work(r) == r.nsteps <= 3 * r.ntoks + 3 /\ r.attempts <= 16 * (r.ntoks + 1)
-C01one(c, r, tag) == (IF r.outcome \in {"ok","err"} THEN <<>> ELSE <<Fail("C01", c, "Parse " \o r.outcome \o tag, "none")>>)
+C01one(c, r, tag) == (IF r.outcome \in {"ok","err"} THEN <<>> ELSE <<Fail("C01", c, (IF r.outcome = "killed" THEN "a call on this input exhausted memory or time: the recorder process was killed" ELSE "Parse " \o r.outcome) \o tag, "none")>>)
                   \o (IF CallsOk(r) THEN <<>> ELSE <<Fail("C01", c, "printer, encoder or renderer panicked or printed a %! marker" \o tag, "none")>>)
                   \o (IF Work(r) THEN <<>> ELSE <<Fail("C01", c, "parser work not linear in the tokens" \o tag, "none")>>)
 C01(c) == C01one(c, c.res, "") \o C01one(c, c.resdf, " (default field)")
